@@ -73,4 +73,12 @@ def makeConsistent (entries : FlatST) : FlatST :=
   | first :: rest =>
     compress (rest.foldl (step (entries.map (·.2))) { prev := first.x, op := [first.idx] }).out
 
+/-- `HpxRanges2D::create_from_time_ranges_spatial_coverage` / `create_from_time_ranges_positions` (repaired), for time
+    ranges already aligned on the time depth: an observation whose time range or whose coverage is empty covers
+    nothing and is removed AS A WHOLE before the sweep (the time ranges alone used to be filtered, which paired every
+    later observation with the coverage of the previous one; an empty coverage used to give an element with an empty
+    S-MOC). -/
+def fromObservations (entries : FlatST) : FlatST :=
+  makeConsistent (entries.filter fun e => decide (e.1.1 < e.1.2) && !e.2.isEmpty)
+
 end Moc.Consistent2D
